@@ -1283,6 +1283,49 @@ def rule_d14(toks, log):
 
 
 # ---------------------------------------------------------------------------------------
+# D14c: `( self << E )` / `( self >> E )` in a (hoisted) method whose receiver is a reference to a PRIMITIVE integer
+
+_D14C_PRIMS = ('u8', 'u16', 'u32', 'u64', 'u128', 'usize', 'i8', 'i16', 'i32', 'i64', 'i128', 'isize')
+
+
+def _rule_d14c(toks, log, prim):
+    """`( self_ << E )` / `( self_ >> E )` with `self_ : & <primitive integer>` ==> `( ( * self_ ) << E )`.
+    Verus (this build) panics on a built-in shift whose left operand is a reference (`mk_range &u64`), and the D14b form
+    `Shl::shl(&u64, u32)` has no usable specification in vstd (no ShlSpecImpl for `&u64`: its `shl_req` is uninterpreted).
+    `<&u64 as Shl<u32>>::shl(a, b)` is DEFINED in core (forward_ref_binop!) as `*a << b`: the rewrite is that definition
+    (trusted like D14).  Same shape restrictions on E as D14 / D14b; anything else is left untouched."""
+    out = list(toks)
+    i = 0
+    while i + 3 < len(out):
+        if (out[i][0] == 'p' and out[i][1] == '(' and not out[i][2]
+                and out[i + 1][0] == 'id' and out[i + 1][1] == 'self_' and not out[i + 1][2]
+                and out[i + 2][0] == 'p' and out[i + 2][1] in _D14_OPS and not out[i + 2][2]):
+            e1 = _match_close(out, i)
+            rhs = out[i + 3:e1]
+            bad = not rhs or any(x[2] for x in rhs)
+            dd = 0
+            for k, x in enumerate(rhs):
+                if x[0] == 'p' and x[1] in rtok.OPEN:
+                    dd += 1
+                elif x[0] == 'p' and x[1] in rtok.CLOSE:
+                    dd -= 1
+                elif dd == 0 and x[0] == 'p' and x[1] in (
+                        '<', '>', '<=', '>=', '==', '!=', '&&', '||', '+', '*', '/', '%', '|', '^', '&', '<<', '>>', '..', '=',
+                        ',', ';') or (dd == 0 and k > 0 and x[0] == 'p' and x[1] == '-'):
+                    bad = True
+            if bad:
+                raise Unsupported('D14c: shift amount shape `%s`' % _txt(rhs))
+            log.append('D14c `%s` -> `( * self_ ) %s ..` (receiver &%s: core forward_ref_binop definition)' % (
+                _txt(out[i:e1 + 1])[:80], out[i + 2][1], prim))
+            new = [out[i], T('p', '('), T('p', '*'), out[i + 1], T('p', ')')] + out[i + 2:e1 + 1]
+            out = out[:i] + new + out[e1 + 1:]
+            i += len(new)
+            continue
+        i += 1
+    return out
+
+
+# ---------------------------------------------------------------------------------------
 # D14b: `( self << E )` / `( self >> E )` in a method whose receiver is `&self`
 
 def rule_d14b(toks, log):
@@ -1302,6 +1345,8 @@ def rule_d14b(toks, log):
             break
         if out[k][0] == 'id' and out[k][1] == 'self_' and _is(out[k + 1], ':') and _is(out[k + 2], '&') \
                 and not (k + 3 < len(out) and _is(out[k + 3], 'mut')):
+            if k + 3 < len(out) and out[k + 3][0] == 'id' and out[k + 3][1] in _D14C_PRIMS:
+                return _rule_d14c(out, log, out[k + 3][1])
             recv_ref = True
             break
         if _is(out[k], '{'):
